@@ -96,6 +96,38 @@ func TCPOptions(t *rapid.T) []layers.TCPOption {
 	return opts
 }
 
+func dnsName(t *rapid.T, l string) []byte {
+	return []byte(rapid.StringMatching(`[a-z]{1,8}(\.[a-z]{1,6}){0,2}`).Draw(t, l))
+}
+
+// dnsRecord draws a resource record of one of the commonly seen types.
+func dnsRecord(t *rapid.T) layers.DNSResourceRecord {
+	rr := layers.DNSResourceRecord{Name: dnsName(t, "rrname"), Class: layers.DNSClassIN, TTL: rapid.Uint32().Draw(t, "rrttl")}
+	switch rapid.IntRange(0, 8).Draw(t, "rrkind") {
+	case 0:
+		rr.Type, rr.IP = layers.DNSTypeAAAA, genIP(t, 16, "rrip6")
+	case 1:
+		rr.Type, rr.NS = layers.DNSTypeNS, dnsName(t, "rrns")
+	case 2:
+		rr.Type, rr.CNAME = layers.DNSTypeCNAME, dnsName(t, "rrcname")
+	case 3:
+		rr.Type, rr.PTR = layers.DNSTypePTR, dnsName(t, "rrptr")
+	case 4:
+		rr.Type, rr.MX = layers.DNSTypeMX, layers.DNSMX{Preference: rapid.Uint16().Draw(t, "mxpref"), Name: dnsName(t, "mxname")}
+	case 5, 6: // one to three character strings (long SPF/DKIM values are split like this)
+		rr.Type = layers.DNSTypeTXT
+		for i, n := 0, rapid.IntRange(1, 3).Draw(t, "ntxt"); i < n; i++ {
+			rr.TXTs = append(rr.TXTs, []byte(rapid.StringMatching(`[a-z=~ ]{0,12}`).Draw(t, "txt")))
+		}
+	case 7:
+		rr.Type, rr.SRV = layers.DNSTypeSRV, layers.DNSSRV{Priority: rapid.Uint16().Draw(t, "srvp"), Weight: rapid.Uint16().Draw(t, "srvw"), Port: rapid.Uint16().Draw(t, "srvport"), Name: dnsName(t, "srvname")}
+	default:
+		rr.Type = layers.DNSTypeSOA
+		rr.SOA = layers.DNSSOA{MName: dnsName(t, "mname"), RName: dnsName(t, "rname"), Serial: rapid.Uint32().Draw(t, "serial"), Refresh: 3600, Retry: 600, Expire: 86400, Minimum: 60}
+	}
+	return rr
+}
+
 // Payload draws an application payload: empty, odd, even, or around a page.
 func Payload(t *rapid.T, maxLen int) []byte {
 	switch rapid.IntRange(0, 5).Draw(t, "plkind") {
@@ -168,11 +200,29 @@ func stack(t *rapid.T, rt bool) *Built {
 		b.Layers = append(b.Layers, ip)
 		nl = ip
 		b.Desc = append(b.Desc, "ipv6")
+		hbh := (*layers.IPv6HopByHop)(nil)
+		if !rt && rapid.IntRange(0, 3).Draw(t, "v6hbh") == 0 {
+			// hop-by-hop options extension header (router alert, small unknown options), written as its own layer
+			hbh = &layers.IPv6HopByHop{}
+			hbh.NextHeader = proto
+			ip.NextHeader = layers.IPProtocolIPv6HopByHop
+			n := rapid.IntRange(0, 3).Draw(t, "nhbhopts")
+			for i := 0; i < n; i++ {
+				od := rapid.SliceOfN(rapid.Byte(), 0, 6).Draw(t, "hbhoptdata")
+				hbh.Options = append(hbh.Options, &layers.IPv6HopByHopOption{OptionType: rapid.SampledFrom([]uint8{0x05, 0x1e, 0x3e, 1}).Draw(t, "hbhoptt"), OptionLength: uint8(len(od)), OptionData: od})
+			}
+			b.Layers = append(b.Layers, hbh)
+			b.Desc = append(b.Desc, "ipv6-hopbyhop")
+		}
 		if rapid.IntRange(0, 3).Draw(t, "v6dest") == 0 {
 			// destination options extension header with 0..3 options of every length 0..6
 			d := &layers.IPv6Destination{}
 			d.NextHeader = proto
-			ip.NextHeader = layers.IPProtocolIPv6Destination
+			if hbh != nil {
+				hbh.NextHeader = layers.IPProtocolIPv6Destination
+			} else {
+				ip.NextHeader = layers.IPProtocolIPv6Destination
+			}
 			n := rapid.IntRange(0, 3).Draw(t, "ndestopts")
 			for i := 0; i < n; i++ {
 				od := rapid.SliceOfN(rapid.Byte(), 0, 6).Draw(t, "destoptdata")
@@ -212,14 +262,26 @@ func stack(t *rapid.T, rt bool) *Built {
 		tc := &layers.TCP{SrcPort: layers.TCPPort(genPort(t, rt, "sport")), DstPort: layers.TCPPort(genPort(t, rt, "dport")),
 			Seq: rapid.Uint32().Draw(t, "seq"), Ack: rapid.Uint32().Draw(t, "ack"), Window: rapid.Uint16().Draw(t, "win"), Urgent: rapid.Uint16().Draw(t, "urg"),
 			SYN: rapid.Bool().Draw(t, "syn"), ACK: rapid.Bool().Draw(t, "ackf"), PSH: rapid.Bool().Draw(t, "psh"), FIN: rapid.Bool().Draw(t, "fin"), Options: TCPOptions(t)}
+		eol := rapid.IntRange(0, 3).Draw(t, "tcpeol") == 0 // the list ends with an explicit End-of-Option-List entry
 		if rt {
 			n := 0
 			for _, o := range tc.Options {
 				n += int(o.OptionLength)
 			}
-			for ; n%4 != 0; n++ {
-				tc.Options = append(tc.Options, layers.TCPOption{OptionType: 1, OptionLength: 1})
+			if eol {
+				n++
 			}
+			if n <= 40 {
+				for ; n%4 != 0; n++ {
+					tc.Options = append(tc.Options, layers.TCPOption{OptionType: 1, OptionLength: 1})
+				}
+			} else {
+				eol = false
+			}
+		}
+		if eol {
+			tc.Options = append(tc.Options, layers.TCPOption{OptionType: 0, OptionLength: 1})
+			b.Desc = append(b.Desc, "tcp-eol")
 		}
 		tc.SetNetworkLayerForChecksum(nl)
 		if len(tc.Options) > 0 {
@@ -247,6 +309,19 @@ func stack(t *rapid.T, rt bool) *Built {
 				if rt {
 					a := &d.Answers[len(d.Answers)-1]
 					a.Data, a.DataLength = append([]byte(nil), a.IP...), 4 // what decoding reports alongside IP
+				} else {
+					// more record types in every section (not in round-trip stacks: their decoded form carries extra raw fields)
+					for i, n := 0, rapid.IntRange(0, 3).Draw(t, "dnsmore"); i < n; i++ {
+						rr := dnsRecord(t)
+						switch rapid.IntRange(0, 2).Draw(t, "dnssection") {
+						case 0:
+							d.Answers = append(d.Answers, rr)
+						case 1:
+							d.Authorities = append(d.Authorities, rr)
+						default:
+							d.Additionals = append(d.Additionals, rr)
+						}
+					}
 				}
 			}
 			b.Layers = append(b.Layers, d)
